@@ -72,7 +72,7 @@ def generate(ctx, cfg_name):
             r = repo.resolve_name(mod, c.func.id)
             if r and r[0] == "class":
                 classes[c.func.id] = {n: m.node for cc in reversed(repo.class_mro(r[1])) for n, m in cc.methods.items()}
-    genv = {"MISSING": "<MISSING>", "instantiate_code": instantiate_code, "count": lambda: Record(kind="counter")}
+    genv = {"MISSING": "<MISSING>", "instantiate_code": instantiate_code, "count": lambda *a: __import__("itertools").count(*a)}
     for k, v in mod.str_constants.items():
         genv[k] = v
     funcs = {n: f.node for n, f in mod.funcs.items() if f.parent is None and f.cls is None and f is not gen}
